@@ -33,6 +33,8 @@ var configs = []config{
 	{false, time.Hour}, {true, time.Hour},
 	{false, time.Nanosecond}, {true, time.Nanosecond},
 	{false, nodeenrollment.DefaultMaximumServerLedActivationTokenLifetime}, {true, nodeenrollment.DefaultMaximumServerLedActivationTokenLifetime},
+	// a maximum lifetime of zero: every token is too old one nanosecond after its creation
+	{false, 0}, {true, 0},
 }
 
 type tokState struct {
@@ -435,11 +437,11 @@ func init() {
 	engine.Register(&engine.CheckDef{
 		ID:    "C06",
 		Level: "model_checking",
-		Rule: "BFS (quick depth 4, thorough depth 6) over {create T1|T2, use Ti by K1|K2, authorize Kj, remove Kj, age by lifetime-1ns | 1ns | 2*lifetime, tamper Ti with clear-time | transplant of the sealed value | copy of the other token's whole record | bit-flip | downgrade} on the real registration code under a frozen virtual clock, for 6 configurations (storage wrapper off/on x maximum lifetime 1h, 1ns, 14d); state key = per token (presence, exact age up to lifetime+1ns, tamper tag, consumed) and per key whether it has a record; " +
+		Rule: "BFS (quick depth 4, thorough depth 6) over {create T1|T2, use Ti by K1|K2, authorize Kj, remove Kj, age by lifetime-1ns | 1ns | 2*lifetime, tamper Ti with clear-time | transplant of the sealed value | copy of the other token's whole record | bit-flip | downgrade} on the real registration code under a frozen virtual clock, for 8 configurations (storage wrapper off/on x maximum lifetime 1h, 1ns, 14d, 0); state key = per token (presence, exact age up to lifetime+1ns, tamper tag, consumed) and per key whether it has a record; " +
 			"token creation with an application-supplied random source that delivers {0,1,2,16,31} bytes (nil error) on its first / second read, with and without a storage wrapper: creation must fail, else the stored id is attacked with 65536 offline key guesses and every token byte must have come from the source; " +
 			"distinct_nontrivial = number of canonical states reached over all configurations",
 		Assumptions: []string{"the storage wrapper is length-guarded: an edited record can hand go-kms-wrapping's aead wrapper a ciphertext shorter than its nonce, which panics inside that dependency (not attributed to this library)", "the tie age == lifetime is not constrained (the property says 'exceeds')", "without a storage wrapper the stored clear creation time is what governs expiry (the property promises tamper resistance only with a wrapper)"},
-		Shards:      func(c *engine.Ctx) int { return 6 },
+		Shards:      func(c *engine.Ctx) int { return 8 },
 		Run:         run,
 		Replay:      replay,
 	})
